@@ -6,6 +6,7 @@ CONSTANTS
  CommonU <- SmallU  CommonV <- SmallV
  FamStreams <- NoValues  FamBase = 3  FamGroups <- NoValues
  ParkA <- NoValues  ParkB <- NoValues
+ EncN <- NoValues
  Volume = TRUE
  MinSteps = 7  MaxSteps = 7
 CONSTRAINT Emit
